@@ -642,6 +642,124 @@ Definition exitAfterDefer_visit (d : node) : outcome :=
 
 Definition run_exitAfterDefer (f : file) : outcome := run_funcdecl false exitAfterDefer_visit f.
 
+(* ================= unlambda (Expr walker) ================= *)
+Definition other_kind (n : node) : N :=
+  match ntag n with TOther _ => N.div (na n) 1000 | _ => 0 end.
+Definition is_ellipsis (n : node) : bool := N.eqb (other_kind n) 6.
+
+(* for _, id := range params.Names { if !astequal.Expr(id, result.Args[n]) { return }; n++ } *)
+Fixpoint ul_names (ids args : list node) (n : nat) : res (option nat) :=
+  match ids with
+  | [] => R (Some n)
+  | id :: r =>
+      match nth_error args n with
+      | None => P "unlambda: result.Args[n]"
+      | Some a => if node_eqb id a then ul_names r args (S n) else R None
+      end
+  end.
+
+Fixpoint ul_params (flds args : list node) (ellipsis : bool) (n : nat) : res (option nat) :=
+  match flds with
+  | [] => R (Some n)
+  | fld :: r =>
+      match field_type fld with
+      | None => R None
+      | Some ty =>
+          if is_ellipsis ty then
+            if negb ellipsis then R None else ul_params r args ellipsis (S n)
+          else
+            match ul_names (field_names fld) args n with
+            | P s => P s
+            | R None => R None
+            | R (Some n') => ul_params r args ellipsis n'
+            end
+      end
+  end.
+
+(* lenArgs: the arguments, with every argument that is a call replaced by its own (flattened) arguments *)
+Fixpoint len_args (l : nodes) : nat :=
+  match l with
+  | NN => 0
+  | NC (Nd t _ _ _ _ _ k) r =>
+      (if tag_eqb t TCall then match k with NC _ inner => len_args inner | NN => 0 end else 1) + len_args r
+  end.
+
+(* the literal is `func(params) T { return f(args) }`: (literal's parameter list, call) *)
+Definition ul_shape (e : node) : option (node * node) :=
+  match e with
+  | Nd TFuncLit _ _ _ _ _ (NC ft (NC body NN)) =>
+      match kids body with
+      | [ret] =>
+          if negb (is_tag TReturn ret) then None else
+          match kids ret with
+          | [call] => if is_tag TCall call then match ft_params ft with Some ps => Some (ps, call) | None => None end else None
+          | _ => None
+          end
+      | _ => None
+      end
+  | _ => None
+  end.
+
+Definition unlambda_visit (e : node) : outcome :=
+  match ul_shape e with
+  | None => Ok []
+  | Some (ps, call) =>
+      match nkids call with
+      | NN => Ok []
+      | NC fn args =>
+          let callable := qualified_name fn in
+          if String.eqb callable "" then Ok [] else
+          if is_builtin callable then Ok [] else
+          if contains_node (fun n => is_tag TIdent n && xbit x_var_nonstruct n) fn then Ok [] else
+          if negb (xbit x_fn_same_type e) then Ok [] else
+          match ul_params (kids ps) (to_list args) (N.eqb (na call) 1) 0 with
+          | P s => Panic s
+          | R None => Ok []
+          | R (Some n) => if Nat.eqb (len_args args) n then Ok [w0 "unlambda" e] else Ok []
+          end
+      end
+  end.
+
+Definition run_unlambda (f : file) : outcome := run_expr unlambda_visit f.
+
+(* what go/types guarantees about such a literal when its type is identical to the callee's (hypothesis of
+   C01_unlambda_total_partial; evaluated on every converted file by the tie): the call's arguments fit the literal's
+   own parameter list, `...T` is the last parameter, an identifier is never a multi-value expression *)
+Definition slots_of (flds : list node) : nat :=
+  fold_right (fun fld acc => (match field_type fld with
+                              | Some ty => if is_ellipsis ty then 1 else (if N.eqb (na fld) 0 then 1 else N.to_nat (na fld))
+                              | None => 0 end) + acc) 0 flds.
+
+Fixpoint ellipsis_only_last (flds : list node) : bool :=
+  match flds with
+  | [] => true
+  | [_] => true
+  | fld :: r => match field_type fld with Some ty => negb (is_ellipsis ty) | None => true end && ellipsis_only_last r
+  end.
+
+Fixpoint last_is_ellipsis (flds : list node) : bool :=
+  match flds with
+  | [] => false
+  | [fld] => match field_type fld with Some ty => is_ellipsis ty | None => false end
+  | _ :: r => last_is_ellipsis r
+  end.
+
+Definition g_unlambda_arity (n : node) : bool :=
+  (if is_tag TIdent n then N.eqb (f_multi (nfacts n)) 0 else true) &&
+  match ul_shape n with
+  | Some (ps, call) =>
+      if xbit x_fn_same_type n then
+        match kids call with
+        | _ :: args =>
+            ellipsis_only_last (kids ps) &&
+            arity_ok (length args) (N.eqb (na call) 1) (match args with a0 :: _ => f_multi (nfacts a0) | [] => 0%N end)
+                     (Sig (N.of_nat (slots_of (kids ps))) (last_is_ellipsis (kids ps)) RNone false)
+        | [] => true
+        end
+      else true
+  | None => true
+  end.
+
 (* ---------- hypotheses of the C20 partial theorem of exitAfterDefer ---------- *)
 (* no qualifier `log` / `os` denotes anything but the package, and no identifier is spelled like a qualified name *)
 Definition g_no_namesake_exit (n : node) : bool :=
@@ -674,11 +792,13 @@ Definition run_by_name2 (name : string) (f : file) : option outcome :=
   else if String.eqb name "captLocal/paramsOnly=false" then Some (run_captLocal false f)
   else if String.eqb name "builtinShadow" then Some (run_builtinShadow f)
   else if String.eqb name "exitAfterDefer" then Some (run_exitAfterDefer f)
+  else if String.eqb name "unlambda" then Some (run_unlambda f)
   else run_by_name name f.
 
 (* disagreement report of one case over both registries *)
 Definition case_detail2 (f : file) (observed : list (string * obs)) : list (string * obs) :=
   ((if wf f then [] else [("wf", None)]) ++
+   (if forallb g_unlambda_arity (all_nodes f) then [] else [("g_unlambda_arity", None)]) ++
    flat_map (fun p => match run_by_name2 (fst p) f with
                       | Some o => if obs_eqb (entry_only (fst p)) (model_obs o) (snd p) then [] else [(fst p, model_obs o)]
                       | None => [(fst p, None)]
